@@ -117,6 +117,8 @@ class Runner:
         self.accepted_bad = {0: [], 1: []}   # manipulated frames a client accepted (phase newly processed)
         self.shadow_q = {0: [], 1: []}       # accepted non-PAKE frames waiting in Order's queue: (side, phase, desc, legit)
         self.processed_bad = {0: [], 1: []}  # manipulated frames that were handed on to Receive
+        self.stashed_bad = {0: None, 1: None}   # an unusable PAKE message waiting in Key for the code
+        self.bad_pake = {0: [], 1: []}          # unusable PAKE messages _SortedKey consumed: (desc, boss state before)
         self.hold = {0: False, 1: False}     # the server withholds the peer's messages from this client …
         self.held = {0: [], 1: []}           # … these
         self.tampered = False
@@ -229,14 +231,14 @@ class Runner:
 
     # -- classification of a `message` frame addressed to client ci
     def wellformed_elem(self, elem):
-        """does a fresh, unrelated SPAKE2 instance accept the element?"""
+        """does a fresh, unrelated SPAKE2 instance accept the element?  -> True, or the exception it raises"""
         try:
             s = SPAKE2_Symmetric(b"x", idSymmetric=b"y")
             s.start()
             s.finish(elem)
             return True
-        except Exception:
-            return False
+        except Exception as e:  # noqa
+            return e
 
     def guarded_ws_message(self, c, payload):
         """like World._guard, but an exception raised from inside the spake2 package is 'spake2 refused the element'
@@ -251,6 +253,15 @@ class Runner:
                 self.exc_override = {name: "PakeError"}
             c.internal.append((name, str(e)[:200]))
             return name
+
+    def consumed_bad_pake(self, ci, desc, b_before, exc):
+        """_SortedKey was given an unusable PAKE message: that is a wrong code (scared), never an internal failure"""
+        self.bad_pake[ci].append((desc, b_before))
+        self.tags.add("bad-pake-consumed:" + desc.split(" ")[1])
+        if exc is not None:
+            self.viol.append(("bad-pake-escapes:" + exc,
+                              f"client {ci}: PAKE message {desc!r} made {exc} escape from ws_message/set_code instead of "
+                              f"closing with WrongPasswordError"))
 
     def machine(self, obj):
         try:
@@ -280,10 +291,12 @@ class Runner:
             for j, e in self.pake_elem.items():
                 if e == elem:
                     return f"P peer {j}", (j != ci and side != c.side)
-            if self.wellformed_elem(elem):
+            wf = self.wellformed_elem(elem)
+            if wf is True:
                 if elem not in self.strangers:
                     self.strangers.append(elem)
                 return f"P stranger {self.strangers.index(elem)}", False
+            self.tags.add("pake-refused:" + type(wf).__name__)
             return "P bad", False
         r = self.registry.get(body)
         if r is None:
@@ -341,6 +354,7 @@ class Runner:
             side, phase, body = msg["side"], msg["phase"], bytes.fromhex(msg["body"])
             self.exc_override = {}
             o_before = self.machine(c.boss._O)
+            k_before, b_before = self.machine(c.boss._K), self.machine(c.boss)
             desc, legit = self.describe(ci, side, phase, body)
             before = self.processed(ci) or set()
             nrx0 = c.boss._O._queue.__len__(), len(c.events)
@@ -351,6 +365,13 @@ class Runner:
                 ((c.boss._O._queue.__len__(), len(c.events)) != nrx0 or exc is not None)
             if accepted and not legit:
                 self.accepted_bad[ci].append((side, phase, desc))
+            # an unusable PAKE message (undecodable, no pake_v1, element refused by spake2, our own element reflected)
+            if accepted and phase == "pake" and (desc.split(" ")[1] in ("raise", "missing", "bad") or desc == f"P peer {ci}"):
+                k_after = self.machine(c.boss._K)
+                if k_after == "S01":
+                    self.stashed_bad[ci] = desc
+                elif k_before == "S10" and k_after == "S11":
+                    self.consumed_bad_pake(ci, desc, b_before, exc)
             # which frames did Order hand on to Receive in this step?
             handed = []
             if accepted and phase != "pake":
@@ -441,11 +462,15 @@ class Runner:
     def api(self, ci, text, f):
         c = self.W.clients[ci]
         snap = self.snapshot(ci)
+        k_before, b_before = self.machine(c.boss._K), self.machine(c.boss)
         try:
             f()
             exc = None
         except Exception as e:
             exc = type(e).__name__
+        if self.stashed_bad[ci] and k_before == "S01" and self.machine(c.boss._K) == "S11":
+            d, self.stashed_bad[ci] = self.stashed_bad[ci], None
+            self.consumed_bad_pake(ci, d, b_before, exc)
         self.line(ci, text, exc, snap)
 
     # -- message frames queued to client ci
@@ -616,7 +641,7 @@ class Runner:
             if kind == "missing":
                 body = dict_to_bytes({"pake_v2": "00"})
             elif kind == "notjson":
-                body = [b"\xff\xfe", b"{", b"[1", b""][arg % 4]
+                body = [b"\xff\xfe", b"{", b"[1", b"", b"[" * 5000, b'{"pake_v1": 5}', b'{"pake_v1": "zz"}', b'[1]'][arg % 8]
             elif kind == "badelem":
                 body = dict_to_bytes({"pake_v1": (b"S" + bytes([arg % 256]) * 32).hex()})
             elif kind == "offside":
@@ -721,6 +746,12 @@ class Runner:
             closed = [v for n, v in c.events if n == "closed"]
             if len(closed) > 1:
                 self.viol.append(("closed-twice", f"client {ci}: closed delivered {len(closed)} times: {closed}"))
+            for d, b_before in self.bad_pake[ci]:
+                if b_before in ("S0_empty", "S1_lonely", "S2_happy") and closed and closed[-1] != "WrongPasswordError":
+                    self.viol.append(("bad-pake-verdict:" + closed[-1],
+                                      f"client {ci} was given the unusable PAKE message {d!r} while open and closed "
+                                      f"{closed[-1]}, not WrongPasswordError"))
+                    break
             if self.processed_bad[ci] and closed and closed[-1] in ("happy", "LonelyError"):
                 self.viol.append(("manipulated-processed-not-closed-with-error",
                                   f"client {ci} handed manipulated frame(s) {self.processed_bad[ci][:2]} to Receive and closed "
@@ -812,7 +843,7 @@ def tamper_op(rng, ci):
     if kind == "reflectpake":
         return ["reflect", ci, 0, rng.randrange(0, 8), None]
     if kind == "fabpake":
-        return ["fabpake", ci, rng.choice(["missing", "notjson", "badelem", "offside", "stranger", "ext"]), rng.randrange(0, 4)]
+        return ["fabpake", ci, rng.choice(["missing", "notjson", "notjson", "badelem", "offside", "stranger", "ext"]), rng.randrange(0, 8)]
     if kind == "keyholder":
         ph = rng.choice(PHASES)
         pt = rng.choice(VERSIONS_PT).hex() if ph == "version" else payload(rng)
@@ -896,7 +927,9 @@ def corpus():
         out.append(dict(kind="run", seed=3, honest=False,
                         script=H + [["send", 0, "aa01"], ["send", 0, "aa02"], ["pump", 4], ["send", 1, "bb01"], ["pump", 2], t, ["settle"]]))
     for t in [["reflect", 1, 0, 1, None], ["reflect", 1, 0, 0, None], ["fabpake", 1, "missing", 0], ["fabpake", 1, "notjson", 0],
-              ["fabpake", 1, "notjson", 1], ["fabpake", 1, "badelem", 3], ["fabpake", 1, "offside", 0], ["fabpake", 1, "stranger", 1],
+              ["fabpake", 1, "notjson", 1], ["fabpake", 1, "notjson", 4], ["fabpake", 1, "notjson", 5], ["fabpake", 1, "notjson", 6],
+              ["fabpake", 1, "notjson", 7], ["fabpake", 1, "badelem", 3], ["fabpake", 1, "badelem", 2], ["fabpake", 1, "badelem", 7], ["fabpake", 1, "badelem", 255],
+              ["fabpake", 1, "offside", 0], ["fabpake", 1, "stranger", 1],
               ["fabpake", 1, "ext", 0], ["inject", 1, 0, "0", "00" * 40], ["inject", 1, 0, "version", ""], ["tamper", 1, 0, "phase", "0"],
               ["tamper", 1, 0, "flip", 30], ["tamper", 1, 0, "side", 1]]:
         # before key agreement: the forged frame is the first thing client 1 sees from the mailbox
